@@ -562,6 +562,7 @@ func (req *Request) Process(store StorageClient, stat *Stats) (resp *Response, e
 		if err != nil {
 			resp.Status = "CLIENT_ERROR"
 			resp.Msg = "invalid number"
+			cmem.DBRL.SetData.SubCount(1) // counted by Read, never reaches the store
 			break
 		}
 		var result int
